@@ -180,6 +180,8 @@ class Gen:
             return r.choice(["apply-w-group-0", "map-w-group-1", "starmap-w-group-0", "apply-w-group-1", "start-group-0"])
         self.nreq += 1
         # legal names with characters that matter to %-formatting, str.format, option parsing and the name pattern
+        if r.random() < 0.08:
+            return ""  # the empty string is a name like any other
         return r.choice(["g{n}", "g{n}", "g{n}", "g{n}%", "%s-{n}", "{{}}{n}", "g {n}", "%(x)s{n}", "a%%b{n}", "-g{n}", "gr\u00fcppe{n}", "g{n}-" + "y" * 70]).format(n=self.nreq)
 
     def fname(self):
